@@ -299,18 +299,60 @@ Proof. exact holds_chunked_sound. Qed.
 Print Assumptions C06_chunked_monitor_sound.
 
 (** ** Events.  What a read (or the priming report of a subscription)
-    with event paths reports is exactly [permitted_events]: the queued
+    with event paths reports is [permitted_events]: the queued
     events that are visible to the requester's fabric, come from an element
     that exists and that the requester may read, and match a requested
     path - in queue order; concrete paths get the status of the decision
     table; the rest is omitted silently. *)
+(** Known finding [absent-event-no-status] (design.d/C06.md): on a
+    ReadRequest a concrete event path whose cluster exists on the endpoint
+    but whose event id is not among the cluster's events must yield an
+    UnsupportedEvent status ([event_path_status]); the code deliberately
+    answers nothing for it.  [known_absent_event_no_status] is the class of
+    such requests; exactness is proved outside it, the code's answer is
+    characterised inside it, and the class is inhabited. *)
 Theorem C06_event_exact :
   forall (fabs : list fabric) (who : accessor) (nd : node),
   wf_fabrics fabs = true -> wf_node_events nd = true ->
   forall (paths : list gpath) (queue : list qevent),
+  known_absent_event_no_status nd paths = false ->
   read_events fabs who nd paths queue = spec_read_events nd fabs who paths queue.
 Proof. exact read_events_exact. Qed.
 Print Assumptions C06_event_exact.
+
+(** for every request, in the class or not: the code's answer is the specified
+    one without its UnsupportedEvent status entries - nothing else differs *)
+Theorem C06_event_code_exact :
+  forall (fabs : list fabric) (who : accessor) (nd : node),
+  wf_fabrics fabs = true -> wf_node_events nd = true ->
+  forall (paths : list gpath) (queue : list qevent),
+  read_events fabs who nd paths queue = strip_known (spec_read_events nd fabs who paths queue).
+Proof. exact read_events_code. Qed.
+Print Assumptions C06_event_code_exact.
+
+Theorem C06_event_known_inhabited :
+  wf_node_events known_witness_node = true /\ wf_fabrics known_witness_fabs = true
+  /\ known_absent_event_no_status known_witness_node known_witness_paths = true
+  /\ spec_read_events known_witness_node known_witness_fabs known_witness_who known_witness_paths known_witness_queue
+     = RespItems [OStatus (mkPath (Some 0) (Some 6) (Some 9)) None SUnsupportedEvent; OData 0 6 0 None] []
+  /\ read_events known_witness_fabs known_witness_who known_witness_node known_witness_paths known_witness_queue
+     = RespItems [OData 0 6 0 None] []
+  /\ holds_events false known_witness_who known_witness_node known_witness_fabs known_witness_paths known_witness_queue
+       (read_events known_witness_fabs known_witness_who known_witness_node known_witness_paths known_witness_queue)
+     = false.
+Proof. exact known_absent_event_inhabited. Qed.
+Print Assumptions C06_event_known_inhabited.
+
+Theorem C06_event_absent_no_status :
+  forall (fabs : list fabric) (who : accessor) (nd : node),
+  wf_fabrics fabs = true -> wf_node_events nd = true ->
+  forall (e c id : N) (queue : list qevent),
+  absent_event_path nd (mkPath (Some e) (Some c) (Some id)) = true ->
+  event_path_status nd fabs who e c id = Some SUnsupportedEvent
+  /\ read_events fabs who nd [mkPath (Some e) (Some c) (Some id)] queue
+     = RespItems (map event_out (permitted_events nd fabs who [mkPath (Some e) (Some c) (Some id)] queue)) [].
+Proof. exact event_absent_no_status. Qed.
+Print Assumptions C06_event_absent_no_status.
 
 Theorem C06_event_wildcard_exact :
   forall (fabs : list fabric) (who : accessor) (nd : node),
@@ -326,6 +368,7 @@ Theorem C06_event_concrete_status :
   forall (fabs : list fabric) (who : accessor) (nd : node),
   wf_fabrics fabs = true -> wf_node_events nd = true ->
   forall (e c id : N) (queue : list qevent),
+  absent_event_path nd (mkPath (Some e) (Some c) (Some id)) = false ->
   read_events fabs who nd [mkPath (Some e) (Some c) (Some id)] queue
   = RespItems ((match event_path_status nd fabs who e c id with
                 | Some s => [OStatus (mkPath (Some e) (Some c) (Some id)) None s]
@@ -335,13 +378,25 @@ Theorem C06_event_concrete_status :
 Proof. exact event_concrete_status. Qed.
 Print Assumptions C06_event_concrete_status.
 
+(** subscriptions refuse such paths as a whole (InvalidAction): no deviation *)
 Theorem C06_event_subscribe_exact :
   forall (fabs : list fabric) (who : accessor) (nd : node),
   wf_fabrics fabs = true -> wf_node_events nd = true ->
   forall (paths : list gpath) (queue : list qevent),
   subscribe_events fabs who nd paths queue = spec_subscribe_events nd fabs who paths queue.
-Proof. exact subscribe_events_exact. Qed.
+Proof. exact subscribe_events_spec. Qed.
 Print Assumptions C06_event_subscribe_exact.
+
+(** the classifier of the known finding *)
+Theorem C06_event_known_classifier_sound :
+  forall (subscribe : bool) (who : accessor) (nd : node) (fabs : list fabric)
+         (paths : list gpath) (queue : list qevent) (resp : imresp),
+  holds_events_known subscribe who nd fabs paths queue resp = true ->
+  subscribe = false /\ known_absent_event_no_status nd paths = true
+  /\ resp = strip_known (spec_read_events nd fabs who paths queue)
+  /\ resp = read_events fabs who nd paths queue.
+Proof. exact holds_events_known_sound. Qed.
+Print Assumptions C06_event_known_classifier_sound.
 
 (** an event that names a fabric is reported to that fabric only (no hypothesis) *)
 Theorem C06_event_fabric_sensitive :
